@@ -20,6 +20,9 @@ func main() {
 		func(x *rtgen.Ctx) {
 			x.NonTrivial = func(sc *rtgen.Scenario, o *rtgen.Obs) bool {
 				cls := o.Class()
+				if strings.HasPrefix(sc.Kind, "spoof") {
+					return true // reached the transit-binding decision (validateTransitUnderlaySrc)
+				}
 				switch {
 				case strings.HasPrefix(cls, "forward"), cls == "deliver", strings.HasPrefix(cls, "alert"), cls == "panic":
 					return true
